@@ -2,12 +2,16 @@
   C11 — an emitted SKR reads back identically, fits the schema; no truncation loads.
 
   Model: `Kskm.Duration` / `Kskm.Time` (the two codecs, reader and writer side), `Kskm.SkrXml`
-  (`skr_to_xml` as text, `_indent` exactly).  Helper lemmas: KskmProofs/Lemmas/C11*.lean.
+  (`skr_to_xml` as text, `_indent` exactly), `Kskm.Xml` / `Kskm.XmlGlue` (the repository's reader and
+  its dict → data-class glue).  Helper lemmas: KskmProofs/Lemmas/C11*.lean; for the composition with
+  C12's reader theorem (section "Round trip"): KskmProofs/Lemmas/Skr{Layout,Ink,Plain,Tree,Glue,GlueDoc,
+  ReadBack}.lean.
 -/
 import KskmProofs.Lemmas.C11Duration
 import KskmProofs.Lemmas.C11Datetime
 import KskmProofs.Lemmas.C11Extract
 import KskmProofs.Lemmas.C11Reader
+import KskmProofs.Lemmas.SkrReadBack
 namespace Kskm.C11
 
 /-! ## Durations -/
@@ -193,28 +197,49 @@ theorem C11_schema (dt : Rnc.Datatypes) (acc : Rnc.Accepts dt) (r : Response) (h
 /-! ## Round trip -/
 
 /-
-  FULL STATEMENT (not proved here):
+  THE STATEMENT (DESIGN §4-C11), now proved below as `C11_roundtrip`:
 
-    theorem C11_roundtrip (r : Response) (h : WriterDomain r) :
-        ∃ text r', skrToXml r = .ok text ∧ responseFromXml text = .ok r' ∧ r' ≈ r
-      where r' ≈ r: equal up to the order of the set-valued fields (keys, signatures, algorithms).
-    (`WriterDomain` includes `bundlesSorted`: since /repo e8d5886 the loader sorts response bundles by
-    (expiration, inception, id), as it sorts request bundles — the signer's output is in that order.
-    Before /repo 84feffe the statement needed `2 ≤ r.bundles.length`: F12.)
+      for every response r of the writer's domain, `skr_to_xml(r)` succeeds and the repository's
+      reader applied to that text — `response_from_xml`: the hand-written tag matcher,
+      `_find_end_of_element`, `_store_element`, the dict → data-class glue — returns r.
 
-  `responseFromXml` is package D's model of the repository's reader (lean/Kskm/XmlGlue.lean:
-  regular-expression tag matcher, `_find_end_of_element`, `_store_element`, the dict → data-class glue).
-  What is proved instead, `C11_roundtrip_partial`, is the writer's half and the codec half:
-    (1) the text is `renderDoc (treeOf r)` (`skrToXml_is_render`);
-    (2) reading the DATA off that tree with the reader's own field codecs (`pyInt`, `parseDuration`,
-        `parseDatetime`) gives `r` back exactly, keys in ascending key-tag order (`extractResponse`).
-  MISSING for the full statement: that the repository's reader applied to `renderDoc t` yields the
-  standard reading of `t` for the plain trees the writer produces, i.e. package D's `C12_reader`
-  (`parse (render ℓ t) = dictOf t`) instantiated at the writer's fixed layout, plus `C12_glue`
-  (`responseFromDict (dictOf t) = extractResponse t`), with F12's repair in the glue for one bundle.
-  On the implementation this composition is checked on every generated response by
-  harness/corr_C11.py: clause (b) `response_from_xml(skr_to_xml(r)) == r` and clause (d) ElementTree +
-  independent extractor.
+  It is the composition of
+    (1) `skrToXml_is_render`:  the text is `renderDoc (treeOf r)`;
+    (2) `C11_text_is_plain_xml`:  that text is, character for character,
+          XML declaration ++ "\n" ++ `Xml.renderT t'` ++ "\n"
+        for a PlainXml tree t' = `toP [] (treeOf r)` whose layout is the writer's (no blank inside a
+        start tag, one blank before each attribute, explicit end tags, `<RSA …/>` for the empty element,
+        "\n" + four blanks per level between elements) and whose nesting depth is 5 — the domain of
+        package D's reader theorem;
+    (3) `C12.C12_reader_ksr`:  hence `parse_ksr` returns `dictOf t'` (`C11_reader_on_writer`);
+    (4) the glue on that dict, element by element, with C12's repetition theorems for Key / Signature /
+        SignatureAlgorithm / ResponseBundle (one occurrence is stored as the value, several as a list).
+
+  HYPOTHESES, and why each is there:
+    * `WriterDomain r` — as before (no timestamp, RSA policies, whole-second durations, years
+      1000…9999, …).  Its conditions on STRINGS are exactly `ReadBack.TextSafe r`
+      (`C11_textSafe`): attribute values (KSR id, domain, bundle ids, key identifiers) not empty
+      and free of `"` `<` `>` `&` and control characters; element text (signer's name, the two base64
+      texts) free of those and `strip()`-stable.  Step (2)/(3) need nothing else of r.  Everything
+      the signer prints itself is safe for EVERY value (`C11_own_output_is_safe`: decimal integers,
+      timestamps, durations, base64); only the copied strings remain a genuine hypothesis
+      (`ReadBack.textSafe_of_ids`).  The excluded points are genuine: F6 (a line break in element text is
+      re-indented by the writer), and the reader does not decode entities.
+    * `Constructible r` — the invariants pydantic enforces on every `Key` / `Signature` OBJECT: the
+      algorithm number is a member of `AlgorithmDNSSEC`, `Key.validate` accepts (flags ∈ {256, 257, 385};
+      ECDSA key length).  The model's `Response` is wider than Python's (a `Nat` for the enum), and the
+      reader builds the objects anew, re-running the validators; a Python `Response` always satisfies it.
+    * `KskmGen.wrapsSingleResponseBundle = true ∨ 2 ≤ r.bundles.length` — finding F12: on the pinned tree a
+      one-bundle SKR does not load (`C11_roundtrip_one_bundle_pinned` proves that side, for the writer's
+      own text); the switch is tabulated from the code and `C11_roundtrip_current_tree` names its
+      value now.
+  WHAT COMES BACK: `normalise r` — the same response with `set` fields as the reader builds them
+  (duplicate-free, keys in the writer's key-tag order) — which is the same Python object as r
+  (`ReadBack.SameResponse`: equal field by field, set fields equal as sets), and IDENTICAL to r, as a
+  list-carrying record, when r is already in that representation (`ReadBack.Canonical`).  Bundles: the
+  reader sorts them by (expiration, inception, id); `WriterDomain` includes `bundlesSorted`, so the order
+  is unchanged, for either value of `sortsResponseBundles`.
+  Nothing is missing from the statement; `C11_roundtrip_partial` (the earlier, reader-free part) is kept.
 -/
 
 /-- **C11, round trip — the part that does not need the reader's tag matcher.** -/
@@ -244,6 +269,111 @@ theorem element_roundtrips :
     (∀ name p, policyOk p = true → extractPolicy (policyTree name p) = .ok p) :=
   ⟨extractKey_keyTree, extractSig_sigTree, extractPolicy_policyTree⟩
 
+/-! ## Round trip through the repository's reader -/
+
+section RoundTrip
+open Kskm.ReadBack
+
+/-- the invariants pydantic enforces on the `Key` and `Signature` objects of a response -/
+def Constructible (r : Response) : Prop := constructible r = true
+
+instance (r : Response) : Decidable (Constructible r) := by unfold Constructible; infer_instance
+
+/-- what the repository's reader (current tree) makes of a response -/
+def normalise (r : Response) : Response := readBackWith Xml.pyGlueSwitches r
+
+/-- the string conditions inside `WriterDomain` are exactly `TextSafe` -/
+theorem C11_textSafe (r : Response) (h : WriterDomain r) : TextSafe r := textSafe_of_domain r h
+
+/-- **What the signer prints itself is safe, for every value**: decimal integers, timestamps, durations
+    and base64 text consist of visible, markup-free characters only (`Ink`), hence satisfy the domain's
+    condition on element text — no hypothesis on the numbers, instants, durations or octets. -/
+theorem C11_own_output_is_safe :
+    (∀ i : Int, Ink (pyIntStr i)) ∧ (∀ n : Nat, Ink (natStr n)) ∧
+    (∀ t : Int, Ink (formatDatetime t).toList) ∧ (∀ d : Int, Ink (formatDuration d).toList) ∧
+    (∀ b : Bytes, Ink (Base64.encode b).toList) ∧
+    (∀ s : String, (Base64.decode s).isSome = true → Ink s.toList) ∧
+    (∀ s : String, Ink s.toList → elemTextOk s = true) :=
+  ⟨ink_pyIntStr, ink_natStr, ink_formatDatetime, ink_formatDuration, ink_encode, ink_of_base64, elemTextOk_of_ink⟩
+
+/-- **Step 1 of the composition: the writer's text is a PlainXml rendering** in the domain of C12's
+    reader theorem — needs `TextSafe r` only. -/
+theorem C11_text_is_plain_xml (r : Response) (h : TextSafe r) :
+    renderDoc (treeOf r) = (xmlDecl ++ ['\n']) ++ Xml.renderT (toP [] (treeOf r)) ++ ['\n'] ∧
+    Xml.PlainT Xml.pyClasses (toP [] (treeOf r)) ∧ Xml.heightT (toP [] (treeOf r)) ≤ 5 ∧
+    Xml.Ws Xml.pyClasses ['\n'] :=
+  ⟨renderDoc_eq_renderT _, plainT_toP _ _ Blank.nil (treeOf_plain r h),
+    Nat.le_trans (heightT_toP _ _) (heightX_treeOf r),
+    by intro c hc; simp only [List.mem_singleton] at hc; subst hc; exact strip_blank.2⟩
+
+/-- **Step 2: the repository's reader on the writer's text** returns the dict of the standard reading of
+    that text (`C12.C12_reader_ksr` at the writer's layout), for either behaviour of the attribute loop. -/
+theorem C11_reader_on_writer (sw : Xml.Switches) (r : Response) (h : WriterDomain r) :
+    ∃ text, skrToXml r = .ok text ∧
+      Xml.parseKsr Xml.pyClasses sw text.toList = .ok (Xml.dictOf (toP [] (treeOf r))) := by
+  refine ⟨_, skrToXml_is_render r h, ?_⟩
+  rw [String.toList_ofList, dictOf_treeOf]
+  exact parseKsr_renderDoc sw r (textSafe_of_domain r h)
+
+/-- **C11, round trip, for every value of the behaviour switches** (attribute loop; glue). -/
+theorem C11_roundtrip_switches (sw : Xml.Switches) (gs : Xml.GlueSwitches) (r : Response) (h : WriterDomain r)
+    (hc : Constructible r) (hsw : gs.wrapsSingleResponseBundle = true ∨ 2 ≤ r.bundles.length) :
+    ∃ text, skrToXml r = .ok text ∧
+      Xml.responseFromXmlL Xml.pyClasses sw gs text.toList = .done (.ok (readBackWith gs r)) ∧
+      SameResponse (readBackWith gs r) r ∧ (Canonical r → readBackWith gs r = r) := by
+  refine ⟨_, skrToXml_is_render r h, ?_, readBack_same gs r h, readBack_eq_self gs r h⟩
+  rw [String.toList_ofList]
+  exact responseFromXmlL_renderDoc sw gs r h hc hsw
+
+/-- **C11, round trip.**  Every response of the writer's domain, written by `skr_to_xml` and read back
+    by the repository's `response_from_xml`, yields the same response: `normalise r`, which is r up to
+    the list representation of its `set` fields, and r itself when r is in canonical representation. -/
+theorem C11_roundtrip (r : Response) (h : WriterDomain r) (hc : Constructible r)
+    (hsw : KskmGen.wrapsSingleResponseBundle = true ∨ 2 ≤ r.bundles.length) :
+    ∃ text, skrToXml r = .ok text ∧ Xml.responseFromXml text = .ok (normalise r) ∧
+      SameResponse (normalise r) r ∧ (Canonical r → normalise r = r) := by
+  obtain ⟨text, h1, h2, h3, h4⟩ := C11_roundtrip_switches Xml.pySwitches Xml.pyGlueSwitches r h hc hsw
+  refine ⟨text, h1, ?_, h3, h4⟩
+  unfold Xml.responseFromXml
+  rw [h2]
+  rfl
+
+/-- the tree in /repo now: one bundle is enough (F12 repaired) -/
+theorem C11_roundtrip_current_tree (r : Response) (h : WriterDomain r) (hc : Constructible r) :
+    ∃ text, skrToXml r = .ok text ∧ Xml.responseFromXml text = .ok (normalise r) ∧
+      SameResponse (normalise r) r ∧ (Canonical r → normalise r = r) :=
+  C11_roundtrip r h hc (Or.inl (by decide))
+
+/-- … read back IDENTICALLY when the response is in the reader's representation -/
+theorem C11_roundtrip_identical (r : Response) (h : WriterDomain r) (hc : Constructible r) (hcan : Canonical r) :
+    ∃ text, skrToXml r = .ok text ∧ Xml.responseFromXml text = .ok r := by
+  obtain ⟨text, h1, h2, _, h4⟩ := C11_roundtrip_current_tree r h hc
+  exact ⟨text, h1, by rw [h2, h4 hcan]⟩
+
+/-- **F12, the other value of the switch**: with the pinned glue the writer's own text of a ONE-bundle
+    response makes `response_from_xml` raise TypeError. -/
+theorem C11_roundtrip_one_bundle_pinned (sw : Xml.Switches) (gs : Xml.GlueSwitches)
+    (hgs : gs.wrapsSingleResponseBundle = false) (r : Response) (h : WriterDomain r) (b : Bundle)
+    (hb : r.bundles = [b]) :
+    ∃ text, skrToXml r = .ok text ∧ Xml.responseFromXmlL Xml.pyClasses sw gs text.toList = .done (err .type) := by
+  refine ⟨_, skrToXml_is_render r h, ?_⟩
+  rw [String.toList_ofList]
+  exact responseFromXmlL_renderDoc_pinned sw gs hgs r (textSafe_of_domain r h) b hb
+
+/-- reading is idempotent: what comes back is in the reader's representation of sets -/
+theorem normalise_sets (r : Response) (h : WriterDomain r) :
+    (normalise r).kskPolicy.algorithms.Nodup ∧ (normalise r).zskPolicy.algorithms.Nodup ∧
+    ∀ b ∈ (normalise r).bundles, b.keys.Nodup ∧ b.signatures.Nodup := by
+  refine ⟨nodup_dedup _, nodup_dedup _, ?_⟩
+  intro b hb
+  have hbs := readBack_bundles Xml.pyGlueSwitches r (domain_parts r h).sorted
+  unfold normalise at hb
+  rw [hbs] at hb
+  obtain ⟨b0, _, rfl⟩ := List.mem_map.mp hb
+  exact ⟨nodup_dedup _, nodup_dedup _⟩
+
+end RoundTrip
+
 /-! ## Non-vacuity: a concrete response of the domain -/
 
 def exKey (id : String) (tag : Int) (flags : Int) : Key :=
@@ -270,5 +400,34 @@ def exResponse : Response :=
 
 /-- the example is in the domain (a revoked key, three keys out of tag order, boundary durations) -/
 example : WriterDomain exResponse := by decide +kernel
+
+/-- … its strings are safe, its objects constructible: it meets every hypothesis of `C11_roundtrip` -/
+example : ReadBack.TextSafe exResponse ∧ Constructible exResponse := by
+  constructor <;> decide +kernel
+
+/-- … so it reads back as the same Python object; its keys stand out of key-tag order, so the list
+    representation differs (`normalise` sorts them) -/
+example : ∃ text, skrToXml exResponse = .ok text ∧ Xml.responseFromXml text = .ok (normalise exResponse) ∧
+    ReadBack.SameResponse (normalise exResponse) exResponse :=
+  let ⟨t, h1, h2, h3, _⟩ := C11_roundtrip_current_tree exResponse (by decide +kernel) (by decide +kernel)
+  ⟨t, h1, h2, h3⟩
+
+example : ¬ ReadBack.Canonical exResponse := by
+  unfold ReadBack.Canonical exResponse exBundle exKey
+  decide
+
+/-- the same response with the keys of each bundle in key-tag order, and ONE bundle (F12's shape) -/
+def exCanonical : Response :=
+  { exResponse with bundles := [{ exBundle "b-1" with keys := [exKey "ZSK-1" 1024 256, exKey "KSK-0" 19164 385,
+      exKey "KSK-1" 20326 257] }] }
+
+theorem exCanonical_ok : WriterDomain exCanonical ∧ Constructible exCanonical ∧ ReadBack.Canonical exCanonical := by
+  refine ⟨by decide +kernel, by decide +kernel, ?_⟩
+  unfold ReadBack.Canonical exCanonical exResponse exBundle exKey exPolicy
+  decide
+
+/-- … is read back identically -/
+example : ∃ text, skrToXml exCanonical = .ok text ∧ Xml.responseFromXml text = .ok exCanonical :=
+  C11_roundtrip_identical exCanonical exCanonical_ok.1 exCanonical_ok.2.1 exCanonical_ok.2.2
 
 end Kskm.C11
